@@ -25,7 +25,7 @@
 (* Every number is judged by Variation!Within1 against the exact rational  *)
 (* value; at the default coordinates equality with the source is required. *)
 (***************************************************************************)
-EXTENDS Variation, Json, IOUtils, TLC
+EXTENDS Variation, Json, IOUtils, TLC, SequencesExt
 
 Rec == ndJsonDeserialize(IOEnv.TRACE)
 
@@ -37,13 +37,11 @@ tvars == <<l>>
 Report(e, gid, kind, coords, bad) ==
   LET clauses == {b[1] : b \in bad} IN
   \A cl \in clauses :
-    LET B == {b \in bad : b[1] = cl}
-        b == CHOOSE x \in B : \A y \in B : x[2] <= y[2]
+    LET BB == {b \in bad : b[1] = cl}
+        b == CHOOSE x \in BB : \A y \in BB : x[2] <= y[2]
     IN PrintT(<<"MISMATCH", ToJson([i |-> e.i, case |-> e.case, ev |-> e.ev, clause |-> cl, gid |-> gid,
                                     kind |-> kind, idx |-> b[2], got |-> b[3], want |-> b[4],
-                                    coords |-> coords, nbad |-> Cardinality(B)])>>)
-
-Want(ex) == AcceptInterval(ex)
+                                    coords |-> coords, nbad |-> Cardinality(BB)])>>)
 
 \* ---- Glyph -------------------------------------------------------------------------------
 GlyphOf(e) == [pts |-> e.a.pts, ends |-> e.a.ends, kind |-> e.a.kind, ser |-> e.a.ser,
@@ -54,13 +52,13 @@ JudgeGlyph(e) ==
       o == e.o
       g == GlyphOf(e)
       n == Len(a.pts)
-      judged == GlyphJudged(g, a.hvar, Len(a.coords))
+      judged == GlyphJudged(g, a)
       v == GlyphVerdict(g, a, o)
   IN IF ~judged THEN PrintT(<<"OUTSIDE", ToJson([i |-> e.i, case |-> e.case, gid |-> a.gid])>>)
      ELSE /\ Report(e, a.gid, a.kind, a.coords, v.bad)
-          /\ IF a.exp = <<>> \/ v.exp = a.exp THEN TRUE
+          /\ IF a.exp = <<>> \/ GlyphExpect(g, a) = a.exp THEN TRUE
              ELSE PrintT(<<"MISMATCH", ToJson([i |-> e.i, case |-> e.case, ev |-> e.ev, clause |-> "transport",
-                                               gid |-> a.gid, kind |-> a.kind, idx |-> 0, got |-> v.exp,
+                                               gid |-> a.gid, kind |-> a.kind, idx |-> 0, got |-> GlyphExpect(g, a),
                                                want |-> a.exp, coords |-> a.coords, nbad |-> 1])>>)
           /\ PrintT(<<"STAT", ToJson(v.stat)>>)
 
